@@ -83,7 +83,10 @@ def generate(seed, run, tier):
         if ob['op'] == 'switch_spec_and_back':
             ob['name'] = sched.other_cost(cfg, rf)
         out = list(ops)
-        pos = sys_pos % (len(out) + 1)
+        if sys_pos > len(out):
+            # all positions of this schedule are already enumerated: use the slot for an ordinary seeded run
+            return generate(seed, run_ + 10 ** 7, 'quick_from_thorough')
+        pos = sys_pos
         if pos < len(out) and out[pos]['op'] in ('train_step', 'backward_only') and (blk % 2 == 1):
             out[pos] = dict(out[pos], mid=[ob])
         else:
